@@ -105,7 +105,13 @@ def step_make(root, targets, st, timeout=1500):
     c = os.path.join(root, "coq")
     coq_makefile(root)
     t0 = time.time()
-    rc, out = run(["make", "-j16", "-k"] + targets, cwd=c, timeout=timeout)
+    # a proof script that meets a changed generated term may not fail but run away (time, memory):
+    # every coqc is capped (address space 14 GB; the whole make 15 minutes), and running into a cap
+    # is a proof that no longer checks
+    rc, out = run(["bash", "-c", "ulimit -v 14000000; exec timeout -k 15 900 make -j16 -k " + " ".join(targets)],
+                  cwd=c, timeout=timeout)
+    if rc in (124, 137):
+        out += "\nmake: the proof build ran into its time limit (a proof script no longer terminates)"
     st["make_s"] = round(time.time() - t0, 1)
     st["make_log_tail"] = out[-1500:]
     ok = True
